@@ -51,6 +51,9 @@ EXTRA = {
         "a custom fixer returns a value of type vtype, as fix_illegal_cell_value's docstring requires; foreign-typed "
         "replacements are coerced by numpy (None→False in an onoff column, a str turns a numeric column into text in "
         "jsondata) — observed, outside the statement",
+        "the entry points without a fixer argument (make_table(cells), json_data_to_table(json)) are called "
+        "repeatedly in one process and every call is judged on its own (strict: ValueError naming exactly the call's "
+        "own defects; clean: the same table as the stream read)",
         "workbooks: read_excel on a two-sheet .xlsx written by openpyxl (rows padded to sheet width with empty cells, "
         "so row-wise short rows do not exist there); one fixer argument for the whole read",
         "cells are scalars (str / None / int / float / bool / datetime); unhashable cells (list, dict) are outside "
@@ -856,6 +859,83 @@ def workbook_case(seed, idx, out, model_ok, ops, pend, tmpdir):
             pend.append(("sheet", dict(case, sheet=sname), impl, sname))
 
 
+def direct_case(seed, idx, out, model_ok, ops, pend):
+    """the entry points that take NO fixer argument, called repeatedly in one process: make_table(cells) and
+    json_data_to_table(json). Sequences defective -> clean and clean -> defective -> clean (and random ones); the
+    verdict, the table and the message of every call are judged on their own — nothing may leak from an earlier call"""
+    from pdtable.io.parsers.blocks import make_table
+    from pdtable.io.json import json_data_to_table
+    rng = make_rng(seed, f"C13d:{idx}")
+    entry = "json_data_to_table" if idx % 3 == 2 else "make_table"
+    pattern = [[True, False], [False, True, False], [True, True, False], [rng.random() < 0.5 for _ in range(3)]][idx % 4]
+    for step, want_defect in enumerate(pattern):
+        for _ in range(20):
+            tab = gen_table(rng, step, native=False, allow_transposed=(entry == "make_table"))
+            d = inject(rng, tab, native=False, p_defect=1.0 if want_defect else 0.0)
+            if entry == "json_data_to_table":
+                d["dups"], d["short"], d["tshort"] = {}, {}, {}
+                d.pop("hdr", None)
+            if (n_defects(tab, d) > 0) == want_defect:
+                break
+        else:
+            continue
+        grid = build_grid(tab, d)
+        case = {"seed": seed, "index": idx, "stream": "direct", "entry": entry, "step": step,
+                "pattern": pattern, "rows": grid_to_json(grid)}
+        out.evaluations += 1
+        out.nontrivial.add(hash((repr(grid), entry, step, tuple(pattern))))
+        out.count("direct:" + entry + (":defective" if want_defect else ":clean"))
+        sink = io.StringIO()
+        try:
+            with warnings.catch_warnings(), contextlib.redirect_stdout(sink), contextlib.redirect_stderr(sink):
+                warnings.simplefilter("ignore")
+                if entry == "make_table":
+                    t = make_table([list(r) for r in grid])
+                else:
+                    names = header_names(tab, d)
+                    cols = list(zip(*grid[4:])) if len(grid) > 4 else [() for _ in names]
+                    js = {"name": tab["name"], "destinations": {"all": None},
+                          "columns": {n: {"unit": u, "values": list(c)} for n, u, c in zip(names, tab["units"], cols)}}
+                    t = json_data_to_table(js)
+            impl = {"ok": rc.canon_table(t)}
+        except ValueError as e:
+            impl = {"exc": "ValueError", "text": str(e)}
+        except Exception as e:  # noqa: BLE001
+            impl = {"exc": type(e).__name__, "text": str(e)}
+        if want_defect:
+            if "ok" in impl:
+                out.fail("a default (strict) call delivered a table with defects", case, impl["ok"], None,
+                         key="direct:strict_delivered_defective")
+                return
+            if impl["exc"] != "ValueError":
+                out.fail("a default call on a defective table raised something else than ValueError", case, impl["exc"],
+                         "ValueError", key="direct:exception_class")
+                return
+            entries = block_entries(impl["text"])
+            if entries is None:
+                out.fail("a default call failed with something else than the fixer's report", case, impl["text"][:300], None,
+                         key="strict_not_report")
+                return
+            if not expect_message_names_defects(entries, tab, d, out, case, what="the error message of this call"):
+                return
+        else:
+            if "exc" in impl:
+                out.fail("a default call on a defect-free table failed (a verdict leaked from an earlier call)", case,
+                         impl["text"][:300], "a table", key="direct:clean_rejected")
+                return
+            base = run_impl(rows=build_grid(tab), fixer_kind="default")
+            if base["ending"] == "exhausted" and len(base["blocks"]) == 1:
+                want = dict(base["blocks"][0]["val"]["table"])
+                got = dict(impl["ok"])
+                if got != want:
+                    out.fail("a default call on a defect-free table differs from the stream read of the same table", case,
+                             got, want, key="direct:clean_differs")
+                    return
+        if model_ok:
+            ops.append(rc.model_op("make_table", grid, "strict"))
+            pend.append(("direct", case, impl, None))
+
+
 def foreign_case(seed, idx, out):
     """OBSERVATION ONLY (never a failure): a lenient custom fixer returning values of a foreign type (None for onoff,
     text for numbers / timestamps) breaks the contract of fix_illegal_cell_value ("should return a suitable default
@@ -936,6 +1016,8 @@ def run(tier, seed, model_ok, translator, search=False):
     ops, pend = [], []
     for idx in range(n_streams):
         one_case(seed, idx, out, model_ok, ops, pend)
+    for idx in range(600 if thorough else 120):
+        direct_case(seed, idx, out, model_ok, ops, pend)
     for idx in range(300 if thorough else 60):
         foreign_case(seed, idx, out)
     out.notes.append("foreign-typed custom fixer (observation only, outside the statement): numpy coerces the "
@@ -956,6 +1038,17 @@ def run(tier, seed, model_ok, translator, search=False):
         for (what, case, impl, extra), ans in zip(pend, answers):
             if isinstance(ans, dict) and "error" in ans:
                 out.mismatch("driver error", case, None, ans)
+                continue
+            if what == "direct":
+                m = rc.model_table_canon(ans)
+                if ("ok" in m) != ("ok" in impl) or ("exc" in m and m["exc"] != impl["exc"]):
+                    out.mismatch("default make_table / json_data_to_table call vs Lean makeTable (strict)", case,
+                                 {k: v for k, v in impl.items() if k != "text"}, m)
+                elif "ok" in m:
+                    mt = dict(m["ok"]); mt.pop("fixer", None)
+                    if mt != impl["ok"]:
+                        out.mismatch("default make_table / json_data_to_table call vs Lean makeTable: table differs", case,
+                                     impl["ok"], mt)
                 continue
             if what == "sheet":
                 acc = books.setdefault(id(impl), {"blocks": [], "issues": [], "ending": "exhausted", "stopped": False})
@@ -1038,7 +1131,9 @@ def replay(rep):
         return False, "replay file has no input (no-failing-input-found): " + str(rep.get("broken"))[:300]
     seed = int(inp.get("seed", rep.get("seed", 0)))
     o = Outcome()
-    if inp.get("stream") == "workbook":
+    if inp.get("stream") == "direct":
+        direct_case(seed, int(inp["index"]), o, False, [], [])
+    elif inp.get("stream") == "workbook":
         tmpdir = tempfile.mkdtemp(prefix="c13-")
         try:
             workbook_case(seed, int(inp["index"]), o, False, [], [], tmpdir)
